@@ -463,6 +463,17 @@ def attr(ctx):
     and key[len(key)-len(name)..] == name."""
     F, R = ctx.facts, ctx.report
     b = F.body(ATTR)
+    # idioms that express the suffix test in one library call (`key.strip_suffix(name)`, `rsplit`, ...) are not modelled
+    # as slice comparisons: the clause is then reported as not decided instead of judged on partial evidence
+    from rules.lib_call import all_fn_refs
+    for q in sorted(set(ctx.cg.local_reachable([ATTR])) | {ATTR}):
+        qb = F.body(q)
+        if qb is None or qb.get("derived"):
+            continue
+        for bi, f_, sp, how in all_fn_refs(qb):
+            if re.search(r"::(strip_suffix|strip_prefix|rsplit|rsplitn|rsplit_once|split_last|rposition|rfind)(::<.*>)?$", f_["path"]) and "slice" in f_["path"]:
+                R.notes.append("ATTR not decided: the attribute-matching predicate uses %s, which the rule does not express as slice comparisons" % f_["path"].split("::")[-1])
+                return
     eng = Engine(F)
     eng.key_all = True
 
